@@ -526,6 +526,92 @@ Proof.
   - simpl. apply existsb_combine_false; auto.
 Qed.
 
+(* ================================================================== 5b. a tree is Python-equal to itself *)
+
+Section TreeInd.
+  Variable P : tree -> Prop.
+  Hypothesis Hleaf : forall k s, P (TLeaf k s).
+  Hypothesis Hcyc : forall d i, P (TCyc d i).
+  Hypothesis Hlist : forall l, Forall P l -> P (TList l).
+  Hypothesis Hmset : forall l, Forall P l -> P (TMSet l).
+  Hypothesis Hdict : forall a kvs, Forall (fun kv => P (fst kv) /\ P (snd kv)) kvs -> P (TDict a kvs).
+  Hypothesis Hfdict : forall a kvs, Forall (fun kv => P (fst kv) /\ P (snd kv)) kvs -> P (TFDict a kvs).
+  Hypothesis Hobj : forall n m, P n -> P m -> P (TObj n m).
+
+  Fixpoint tree_ind' (t : tree) : P t :=
+    match t with
+    | TLeaf k s => Hleaf k s
+    | TCyc d i => Hcyc d i
+    | TList l => Hlist l ((fix go (l : list tree) : Forall P l :=
+                             match l with [] => Forall_nil _ | x :: xs => Forall_cons _ (tree_ind' x) (go xs) end) l)
+    | TMSet l => Hmset l ((fix go (l : list tree) : Forall P l :=
+                             match l with [] => Forall_nil _ | x :: xs => Forall_cons _ (tree_ind' x) (go xs) end) l)
+    | TDict a kvs => Hdict a kvs ((fix go (l : list (tree * tree)) : Forall (fun kv => P (fst kv) /\ P (snd kv)) l :=
+                             match l with [] => Forall_nil _
+                             | x :: xs => Forall_cons _ (conj (tree_ind' (fst x)) (tree_ind' (snd x))) (go xs) end) kvs)
+    | TFDict a kvs => Hfdict a kvs ((fix go (l : list (tree * tree)) : Forall (fun kv => P (fst kv) /\ P (snd kv)) l :=
+                             match l with [] => Forall_nil _
+                             | x :: xs => Forall_cons _ (conj (tree_ind' (fst x)) (tree_ind' (snd x))) (go xs) end) kvs)
+    | TObj n m => Hobj n m (tree_ind' n) (tree_ind' m)
+    end.
+End TreeInd.
+
+Lemma scalar_pyeq_refl : forall s, scalar_pyeq s s = true.
+Proof.
+  intros [|b|z|r [z|]|x|x]; unfold scalar_pyeq; simpl; auto using Z.eqb_refl, String.eqb_refl.
+Qed.
+
+(* every placeholder wraps its object once (what Builder.build_tree creates and copy() now preserves) *)
+Fixpoint cyc0 (t : tree) : bool :=
+  match t with
+  | TLeaf _ _ => true
+  | TCyc d _ => Nat.eqb d 0
+  | TList l | TMSet l => forallb cyc0 l
+  | TDict _ kvs | TFDict _ kvs => forallb (fun kv => cyc0 (fst kv) && cyc0 (snd kv)) kvs
+  | TObj n m => cyc0 n && cyc0 m
+  end.
+
+(* such a tree is == to itself *)
+Lemma tree_pyeq_refl : forall t, cyc0 t = true -> tree_pyeq t t = true.
+Proof.
+  induction t as [k s|d i|l IH|l IH|a kvs IH|a kvs IH|n m IHn IHm] using tree_ind'; intros H.
+  - simpl. apply scalar_pyeq_refl.
+  - simpl in *. rewrite H, Z.eqb_refl. reflexivity.
+  - simpl in *. induction IH as [|x xs Hx HF IHl]; auto.
+    simpl in H. apply andb_prop in H. destruct H as [H1 H2]. rewrite (Hx H1). simpl. auto.
+  - simpl in *. induction IH as [|x xs Hx HF IHl]; auto.
+    simpl in H. apply andb_prop in H. destruct H as [H1 H2]. simpl. rewrite (Hx H1). auto.
+  - simpl in *. induction IH as [|[k v] xs [Hk Hv] HF IHl]; auto.
+    simpl in H. apply andb_prop in H. destruct H as [H1 H2]. apply andb_prop in H1. destruct H1 as [H1 H1'].
+    simpl in *. rewrite (Hk H1), (Hv H1'). simpl. auto.
+  - simpl in *. induction IH as [|[k v] xs [Hk Hv] HF IHl]; auto.
+    simpl in H. apply andb_prop in H. destruct H as [H1 H2]. apply andb_prop in H1. destruct H1 as [H1 H1'].
+    simpl in *. rewrite (Hk H1), (Hv H1'). simpl. auto.
+  - simpl in *. apply andb_prop in H. destruct H as [H1 H2]. rewrite (IHn H1), (IHm H2). reflexivity.
+Qed.
+
+Lemma no_placeholder_cyc0 : forall t, has_placeholder t = false -> cyc0 t = true.
+Proof.
+  induction t as [k s|d i|l IH|l IH|a kvs IH|a kvs IH|n m IHn IHm] using tree_ind'; intros H; simpl in *; auto.
+  - discriminate.
+  - induction IH as [|x xs Hx HF IHl]; auto. simpl in *. apply orb_false_elim in H. destruct H as [H1 H2].
+    rewrite (Hx H1). simpl. auto.
+  - induction IH as [|x xs Hx HF IHl]; auto. simpl in *. apply orb_false_elim in H. destruct H as [H1 H2].
+    rewrite (Hx H1). simpl. auto.
+  - induction IH as [|[k v] xs [Hk Hv] HF IHl]; auto. simpl in *. apply orb_false_elim in H. destruct H as [H1 H2].
+    apply orb_false_elim in H1. destruct H1 as [H1 H1']. rewrite (Hk H1), (Hv H1'). simpl. auto.
+  - induction IH as [|[k v] xs [Hk Hv] HF IHl]; auto. simpl in *. apply orb_false_elim in H. destruct H as [H1 H2].
+    apply orb_false_elim in H1. destruct H1 as [H1 H1']. rewrite (Hk H1), (Hv H1'). simpl. auto.
+  - apply orb_false_elim in H. destruct H as [H1 H2]. rewrite (IHn H1), (IHm H2). reflexivity.
+Qed.
+
+Lemma forallb_combine_cyc0 : forall (a c : list tree), forallb cyc0 a = true -> forallb cyc0 c = true ->
+  forallb (fun kv => cyc0 (fst kv) && cyc0 (snd kv)) (combine a c) = true.
+Proof.
+  induction a as [|x a IH]; destruct c as [|y c]; simpl; intros Ha Hc; auto.
+  apply andb_prop in Ha. apply andb_prop in Hc. destruct Ha as [-> Ha]. destruct Hc as [-> Hc]. simpl. auto.
+Qed.
+
 (* ================================================================== 6. (a) acyclic graphs are built faithfully *)
 
 Section Faithful.
@@ -846,7 +932,7 @@ Section Cyclic.
     match r with
     | Built t => (has_placeholder t = false -> exists v, unfold d g i = Some v)
                  /\ (ignore_cycles o = false -> has_placeholder t = false)
-                 /\ copy t = t
+                 /\ copy t = t /\ cyc0 t = true
     | Raised e => e = ECycle /\ ignore_cycles o = false
     | OutOfFuel => True
     end.
@@ -863,17 +949,18 @@ Section Cyclic.
                                         /\ exists m, bigs d (IId i :: anc) c = (Built t, m))) (map IId l) ts ->
                 (existsb has_placeholder ts = false -> exists vs, map_opt (unfold d g) l = Some vs)
                 /\ (ignore_cycles o = false -> existsb has_placeholder ts = false)
-                /\ map copy ts = ts).
+                /\ map copy ts = ts /\ forallb cyc0 ts = true).
       { induction l as [|a l IHl]; intros ts Hd HF; simpl in HF; inversion HF; subst.
         - repeat split; simpl; eauto.
-        - destruct (IHl l' (fun j Hj => Hd j (or_intror Hj)) H4) as [I1 [I2 I3]].
+        - destruct (IHl l' (fun j Hj => Hd j (or_intror Hj)) H4) as [I1 [I2 [I3 I4]]].
           destruct H2 as [[Hf [Hi ->]]|[Hf [m Hm]]].
-          + split; [|split]; simpl; [discriminate|congruence|rewrite I3; reflexivity].
-          + pose proof (IH _ _ _ _ (Hd a (or_introl eq_refl)) Hm) as [J1 [J2 J3]]. split; [|split].
+          + split; [|split; [|split]]; simpl; [discriminate|congruence|rewrite I3; reflexivity|exact I4].
+          + pose proof (IH _ _ _ _ (Hd a (or_introl eq_refl)) Hm) as [J1 [J2 [J3 J4]]]. split; [|split; [|split]].
             * simpl. intros E. apply orb_false_elim in E. destruct E as [E1 E2].
               destruct (J1 E1) as [v Hv]. destruct (I1 E2) as [vs Hvs]. rewrite Hv, Hvs. eauto.
             * simpl. intros Hi. rewrite (J2 Hi), (I2 Hi). reflexivity.
-            * simpl. rewrite J3, I3. reflexivity. }
+            * simpl. rewrite J3, I3. reflexivity.
+            * simpl. rewrite J4, I4. reflexivity. }
       change (bigs (S d) anc (IId i)) with
         (let rn := kids (bigs d (IId i :: anc)) (IId i :: anc) (expand b g (IId i)) in
          match fst rn with
@@ -887,14 +974,14 @@ Section Cyclic.
         destruct (lookup g i) as [nd|] eqn:Hl; [|congruence].
         destruct nd as [s|l|l|l|kvs|cls fs].
         * inversion Hk; subst. inversion H; subst. simpl. rewrite Hl. repeat split; eauto.
-        * inversion H; subst. destruct (CH l ts (fun j Hj => closed_succ _ _ _ Hl Hj) Hk) as [C1 [C2 C3]].
-          unfold inv_result. split; [|split; [auto|simpl; rewrite C3; reflexivity]].
+        * inversion H; subst. destruct (CH l ts (fun j Hj => closed_succ _ _ _ Hl Hj) Hk) as [C1 [C2 [C3 C4]]].
+          unfold inv_result. split; [|split; [auto|split; [simpl; rewrite C3; reflexivity|exact C4]]].
           intros E. destruct (C1 E) as [vs Hvs]. simpl. rewrite Hl, Hvs. simpl. eauto.
-        * inversion H; subst. destruct (CH l ts (fun j Hj => closed_succ _ _ _ Hl Hj) Hk) as [C1 [C2 C3]].
-          unfold inv_result. split; [|split; [auto|simpl; rewrite C3; reflexivity]].
+        * inversion H; subst. destruct (CH l ts (fun j Hj => closed_succ _ _ _ Hl Hj) Hk) as [C1 [C2 [C3 C4]]].
+          unfold inv_result. split; [|split; [auto|split; [simpl; rewrite C3; reflexivity|exact C4]]].
           intros E. destruct (C1 E) as [vs Hvs]. simpl. rewrite Hl, Hvs. simpl. eauto.
-        * inversion H; subst. destruct (CH l ts (fun j Hj => closed_succ _ _ _ Hl Hj) Hk) as [C1 [C2 C3]].
-          unfold inv_result. split; [|split; [auto|simpl; rewrite C3; reflexivity]].
+        * inversion H; subst. destruct (CH l ts (fun j Hj => closed_succ _ _ _ Hl Hj) Hk) as [C1 [C2 [C3 C4]]].
+          unfold inv_result. split; [|split; [auto|split; [simpl; rewrite C3; reflexivity|exact C4]]].
           intros E. destruct (C1 E) as [vs Hvs]. simpl. rewrite Hl, Hvs. simpl. eauto.
         * (* dict *)
           apply Forall2_app_inv_l in Hk.
@@ -931,7 +1018,7 @@ Section Cyclic.
             destruct Hin as [s [<- _]]. reflexivity. }
           assert (Hvals : forall j, In j (map snd kvs) -> lookup g j <> None).
           { intros j Hj. apply (closed_succ _ _ _ Hl). simpl. apply in_or_app. auto. }
-          destruct (CH (map snd kvs) tvs Hvals HV) as [C1 [C2 C3]].
+          destruct (CH (map snd kvs) tvs Hvals HV) as [C1 [C2 [C3 C4]]].
           assert (Hkeysph : existsb has_placeholder (map leaf_of keys) = false).
           { clear. induction keys as [|s keys IHk]; simpl; auto. }
           assert (Hkeysunf : exists ks, map_opt (unfold d g) (map fst kvs) = Some ks).
@@ -962,7 +1049,9 @@ Section Cyclic.
                         = combine (map leaf_of keys) tvs).
           { rewrite map_combine. rewrite C3. f_equal.
             clear. induction keys as [|s keys IHk]; simpl; auto. rewrite IHk. reflexivity. }
-          destruct (allow_key_edits o); inversion H; subst; simpl; (split; [|split]).
+          assert (Hc0 : forallb (fun kv => cyc0 (fst kv) && cyc0 (snd kv)) (combine (map leaf_of keys) tvs) = true).
+          { apply forallb_combine_cyc0; auto. clear. induction keys as [|s keys IHk]; simpl; auto. }
+          destruct (allow_key_edits o); inversion H; subst; simpl; (split; [|split; [|split]]); try exact Hc0.
           -- intros E. apply Hunf. eapply existsb_combine_inv; [|exact E]. rewrite map_length. unfold keys.
              rewrite !map_length. lia.
           -- intros Hi. apply existsb_combine_false; auto.
@@ -997,14 +1086,16 @@ Theorem acyclic_faithful : forall b o g,
   forall d root v, unfold d g root = Some v ->
   exists t n v',
     (forall fuel, n <= fuel -> run_builder b o g fuel root = Built t)
-    /\ to_obj t = ROk v' /\ norm v' = v /\ copy t = t /\ has_placeholder t = false.
+    /\ to_obj t = ROk v' /\ norm v' = v /\ copy t = t /\ tree_pyeq (copy t) t = true
+    /\ has_placeholder t = false.
 Proof.
   intros b o g Hh Hw Hn d root v H.
   destruct (acyclic_builds b o g Hh Hw Hn d root v H []) as [t [n [Hb Hg]]].
   { intros j []. }
   destruct Hg as [G1 [G2 [G3 [G4 _]]]].
   exists t, n, (tov t). repeat split; auto.
-  intros fuel Hle. eapply machine_refines; eauto. discriminate.
+  - intros fuel Hle. eapply machine_refines; eauto. discriminate.
+  - rewrite G3. apply tree_pyeq_refl. apply no_placeholder_cyc0. exact G4.
 Qed.
 
 (* (b) sharing is never mistaken for a cycle: whatever the fuel, no cycle error and no placeholder *)
@@ -1015,7 +1106,7 @@ Theorem shared_not_cycle : forall b o g,
                /\ (forall t, run_builder b o g fuel root = Built t -> has_placeholder t = false).
 Proof.
   intros b o g Hh Hw Hn root [d [v H]] fuel.
-  destruct (acyclic_faithful b o g Hh Hw Hn d root v H) as [t [n [v' [Hrun [_ [_ [_ Hph]]]]]]].
+  destruct (acyclic_faithful b o g Hh Hw Hn d root v H) as [t [n [v' [Hrun [_ [_ [_ [_ Hph]]]]]]]].
   assert (M : forall r, run_builder b o g fuel root = r -> r <> OutOfFuel -> r = Built t).
   { intros r Hr Hne. unfold run_builder in *.
     pose proof (run_mono b o g fuel _ r Hr Hne n) as Hm.
@@ -1033,7 +1124,8 @@ Theorem cyclic_detected : forall b o g,
   forall fuel, fuel_bound b o g root <= fuel ->
     (ignore_cycles o = false -> run_builder b o g fuel root = Raised ECycle)
     /\ (ignore_cycles o = true ->
-        exists t, run_builder b o g fuel root = Built t /\ has_placeholder t = true /\ copy t = t).
+        exists t, run_builder b o g fuel root = Built t /\ has_placeholder t = true
+                  /\ copy t = t /\ tree_pyeq (copy t) t = true).
 Proof.
   intros b o g Hck Hh Hw Hn Hc root Hdef Hcyc fuel Hle.
   destruct (machine_terminates b o g Hck root fuel Hle) as [Hrun Hne].
@@ -1044,10 +1136,11 @@ Proof.
   { intros t -> Hph. destruct Hinv as [I1 _]. destruct (I1 Hph) as [v Hv].
     apply (acyclic_no_cycle g root); [exists (big_depth g), v; auto|auto]. }
   destruct r as [t|e|]; [| |congruence].
-  - destruct Hinv as [_ [I2 I3]]. split.
+  - destruct Hinv as [_ [I2 [I3 I4]]]. split.
     + intros Hi. exfalso. exact (Hnot t eq_refl (I2 Hi)).
-    + intros Hi. exists t. split; auto. split; auto.
-      destruct (has_placeholder t) eqn:P; auto. exfalso. exact (Hnot t eq_refl P).
+    + intros Hi. exists t. split; auto. split; [|split; auto].
+      * destruct (has_placeholder t) eqn:P; auto. exfalso. exact (Hnot t eq_refl P).
+      * rewrite I3. apply tree_pyeq_refl. exact I4.
   - destruct Hinv as [-> Hi]. split; auto. intros Hi'. congruence.
 Qed.
 
